@@ -152,7 +152,7 @@ def pool(h):
 def root_names(h):
     """names a new addition / alternative may carry (not those of the known members)"""
     N = h["N"]
-    out = [("fresh", "x9"), ("fresh", "ext-new"), ("encl+", N + "2")]
+    out = [("fresh", "x9"), ("fresh", "ext-new"), ("encl+", N + "2"), ("encl+", N + "-x")]
     if len(N) > 1 and N[:-1] not in h["before"] + h["after"]:
         out.append(("encl-", N[:-1]))
     return out
